@@ -59,12 +59,24 @@ def handle (s : S) (i : Nat) (j : Json) : S × List Json :=
         let pid := ((fInt? t.f "pool").getD 0).toNat
         match s.pools.find? (fun p => p.id == pid), pre.ammPools.find? (fun p => p.id == pid) with
         | some pr, some po =>
-          if t.kind != "amm.join" || t.code != 0 || pr.oracle || po.oracle || (fld t.f "twice") != .null then none else
+          -- a join whose message names several coins is an ALL-asset join on every kind of pool (oracle pools too: `JoinPool` prices only
+          -- one-coin joins at the oracle): it mints pro rata of what it deposits of EVERY asset of the pool: minted · Rᵢ ≤ S · (dᵢ + 1) for all i
+          let severalCoins := ((fld t.f "maxIn").getArr?.toOption.getD #[]).size ≥ 2
+          let isOracle := pr.oracle || po.oracle
+          if t.kind != "amm.join" || t.code != 0 || (isOracle && !severalCoins) || (fld t.f "twice") != .null then none else
           let others := (idxd.filter (fun (k', _) => k' != k)).any (fun (_, t') => touches pr.addr t'.moves)
           if others || touches pr.addr st.beginMoves || touches pr.addr st.endMoves then none else
           let minted := (t.moves.filter (fun m => m.kind == "mint" && m.denom == po.shareDenom)).foldl (fun a m => a + m.amt) 0
           let dep (d : String) : Int := (t.moves.filter (fun m => m.kind == "send" && m.dst == pr.addr && m.denom == d)).foldl (fun a m => a + m.amt) 0
-          let okAsset := po.assets.any fun (d, r) => dep d > 0 && minted * r ≤ po.shares * (dep d + 1)
+          -- oracle pools: judged by VALUE at the oracle prices of the previous block (no feed in this one): a several-coin join that is pro
+          -- rata in every asset is fair by construction; one that is not must not mint shares worth more (at the pool's book value per
+          -- share) than what it deposits, beyond 10 ppm
+          let proRataAll := po.assets.all fun (d, r) => minted * r ≤ po.shares * (dep d + 1)
+          let bookValue := Elys.Amm.Fair.tvl po.assets (fun _ => 0) (fun d => pre.denomPrices.get d)
+          let depValue := po.assets.foldl (fun a x => a + dep x.1 * pre.denomPrices.get x.1) 0
+          let valueFair := minted * bookValue * 1000000 ≤ po.shares * depValue * 1000010
+          let okAsset := if isOracle then feed || proRataAll || valueFair
+            else po.assets.any fun (d, r) => dep d > 0 && minted * r ≤ po.shares * (dep d + 1)
           if minted ≤ 0 || okAsset then none
           else some (verdictViol i "C05.join_no_more_than_deposit_ratio" (Json.mkObj [("pool", pid), ("minted", mkInt minted), ("totalShares", mkInt po.shares),
                  ("deposits", Json.arr (po.assets.map (fun (d, r) => Json.mkObj [("denom", d), ("reserve", mkInt r), ("deposit", mkInt (dep d))])).toArray)]))
